@@ -62,6 +62,8 @@ class QFSuite(Suite):
                 seq.append(("chk", t, rng.choice(pool) if rng.random() < 0.7 else rng.randrange(1 << 32)))
             elif x < 0.94:
                 seq.append(("resize", t, rng.choice([None, None, q, q + 1, q + 2, max(3, q - 1), 3])))
+            elif x < 0.955:
+                seq.append(("merge", t, t))  # a filter merged into itself
             elif x < 0.97:
                 if 2 not in have:
                     seq.append(("new", 2, rng.choice([3, 4, q]), True))
